@@ -99,6 +99,29 @@ theorem handover_exclusive {proc : Nat → Nat} {s : State} (hr : Reachable proc
     rw [ht] at hi
     simp [TState.inside] at hi
 
+/-- A FAILING START KEEPS THE LOCK: when the original `Process.start()` raises after the hand-over,
+    no process's global changes (in particular the root keeps naming the migrated lock), no lock
+    changes hands and no child comes up — and the resulting state is reachable, so `mutex` and all
+    the other theorems hold after it whatever other threads did in between. -/
+theorem failed_start_keeps_lock {proc : Nat → Nat} {s s' : State} (hr : Reachable proc s) {t : Nat}
+    (hs : step s t .fail = some s') :
+    s'.cur = s.cur ∧ s'.lk = s.lk ∧ s'.up = s.up ∧ s'.thr t = .idle ∧ Reachable proc s' := by
+  refine ⟨?_, ?_, ?_, ?_, Reachable.step t .fail hr hs⟩ <;>
+  · unfold TIV.C14.step at hs
+    simp only at hs
+    cases hup : s.up (s.proc t) with
+    | false => simp [hup] at hs
+    | true =>
+      simp only [hup, if_true] at hs
+      cases hthr : s.thr t with
+      | idle => simp [hthr] at hs
+      | sync f rest => simp [hthr] at hs
+      | start pc l pass c =>
+        simp only [hthr] at hs
+        by_cases hpc : pc = .fk
+        · simp only [hpc, if_true, Option.some.injEq] at hs; subst hs; simp [setThr]
+        · simp [hpc] at hs
+
 /-- RE-ENTRANCY: a nested call never waits — both acquisitions of an inner activation are
     enabled (the lock it loaded is the one the thread already owns). -/
 theorem reentrant {proc : Nat → Nat} {s : State} (hr : Reachable proc s) {t : Nat}
@@ -294,6 +317,16 @@ example : (runSched (init (fun _ => 0)) twoStarts).2.all id = true ∧
     (runSched (init (fun _ => 0)) twoStarts).1.cur 1 = .M 0 ∧
     (runSched (init (fun _ => 0)) twoStarts).1.cur 2 = .M 0 ∧
     (runSched (init (fun _ => 0)) twoStarts).1.cur 0 = .M 0 := by decide
+/-- the first start migrates the lock and then FAILS while thread 1 has entered on the new lock;
+    thread 1 stays the only one inside, thread 0's next call queues on `M 0` -/
+def failSched : List (Nat × Act) :=
+  [(0, .start 1), (0, .adv), (0, .adv), (0, .adv), (0, .adv), (0, .adv),
+   (1, .call), (1, .adv), (1, .adv), (1, .adv), (1, .adv), (0, .fail),
+   (0, .call), (0, .adv)]
+example : (runSched (init (fun _ => 0)) failSched).2.all id = true ∧
+    (runSched (init (fun _ => 0)) failSched).1.cur 0 = .M 0 ∧
+    ((runSched (init (fun _ => 0)) failSched).1.thr 1).inside = true ∧
+    (step (runSched (init (fun _ => 0)) failSched).1 0 .adv).isSome = false := by decide
 /-- a nested call inside the child: hypotheses of `reentrant` are satisfiable -/
 example : (step (runSched (init raceProc) (raceSched ++ [(2, .call), (2, .adv)])).1 2 .adv).isSome
     = true := by decide
